@@ -115,7 +115,7 @@ class Run:
                     self.faults.reset_window(None)
                     self.ex.update_storage(x, y)   # see ASSUMPTIONS
             else:
-                kw['verbose'] = False
+                kw['verbose'] = bool(self.cfg.get('verbose'))     # the progress-bar path is a code path of its own
                 if self.cls == 'batch_original':
                     kw['original_sage'] = True
                 if self.cls == 'interval':
@@ -276,7 +276,8 @@ def cases(draw):
         r['force'] = draw(st.booleans())
     cfg = {'names': draw(cfgs.names_st(d)), 'model': draw(cfgs.model_st(d)), 'loss': draw(cfgs.loss_st()), 'mode': 'exact',
            'seeds': [draw(gen.seed32), draw(gen.seed32)], 'n_inner': draw(st.integers(1, 2)),
-           'interval': draw(st.integers(1, 3)), 'storage_length': draw(st.integers(1, 4)), 'stream': stream, 'd': d}
+           'interval': draw(st.integers(1, 3)), 'storage_length': draw(st.integers(1, 4)), 'stream': stream, 'd': d,
+           'verbose': draw(st.booleans())}
     return {'cls': cls, 'cfg': cfg}
 
 
